@@ -532,6 +532,13 @@ def pop_scope(f, pop):
                     idx = next(k for k, s in enumerate(ss) if s is st)
                     return ss[idx + 1:], "let-match"
             return [live[0]["body"]], "match-arm"
+    if par["k"] == "slet" and par.get("init") is pop and "els" in par and diverges(par["els"]):
+        # `let Some(p) = q.pop() else { <diverge> }; rest-of-block`
+        blk = pm.get(id(par))
+        if blk is not None and blk["k"] == "block":
+            ss = blk.get("stmts", []) + ([blk["expr"]] if "expr" in blk else [])
+            idx = next(k for k, s in enumerate(ss) if s is par)
+            return ss[idx + 1:], "let-else"
     return None, "pop result is consumed by `%s`" % par["k"]
 
 
